@@ -609,3 +609,87 @@ func TestVerifC09Stall(t *testing.T) {
 		},
 	})
 }
+
+// FuzzVerifC09Stream: arbitrary bytes as the peer's output, arbitrary read partition. The reader must behave
+// like the obvious reference parser: complete frames are returned (or rejected because the payload is not a
+// message), a stream that ends between frames is a clean end, one that ends inside a frame is an unexpected end,
+// a declared size above the limit is an error that is neither - and nothing ever panics or returns a message
+// that the bytes do not contain.
+func FuzzVerifC09Stream(f *testing.F) {
+	valid, _ := proto.Marshal(&conformancev1.ClientCompatResponse{TestName: "a/b"})
+	f.Add(vfIndepEncode([][]byte{valid, valid}), uint8(1), false, false)
+	f.Add(vfIndepEncode([][]byte{valid})[:3], uint8(2), true, false)
+	f.Add([]byte{0, 0, 4, 1, 1, 2}, uint8(3), false, true)
+	f.Add([]byte{0xff, 0xff, 0xff, 0xff}, uint8(0), true, false)
+	f.Add(append(vfIndepEncode([][]byte{{}}), 0, 0), uint8(7), true, true)
+	f.Add(vfIndepEncode([][]byte{valid, valid})[:len(valid)+8], uint8(5), false, true)
+	const limit = 1024
+	f.Fuzz(func(t *testing.T, data []byte, step uint8, eofWithData bool, useCodec bool) {
+		if len(data) > 1<<14 {
+			return
+		}
+		var cuts []int
+		if step > 0 {
+			for off, k := 0, 0; off < len(data); k++ {
+				off += 1 + (int(step)*(k+1))%7
+				cuts = append(cuts, off)
+			}
+		}
+		reader := &vfChunkReader{data: data, cuts: cuts, zeroAt: map[int]bool{}, eofWithData: eofWithData}
+		dec := NewCodec(false).NewDecoder(reader) // the peer-side binary stream decoder (no size limit of its own)
+		off := 0
+		for frame := 0; frame < 64; frame++ {
+			msg := &conformancev1.ClientCompatResponse{}
+			rest := data[off:]
+			var err error
+			if useCodec {
+				if len(rest) >= 4 && binary.BigEndian.Uint32(rest) > limit {
+					return // the peer-side decoder trusts the runner's prefix
+				}
+				err = dec.DecodeNext(msg)
+			} else {
+				err = ReadDelimitedMessage(reader, msg, "fuzz peer", 20*time.Second, limit)
+			}
+			switch {
+			case len(rest) == 0:
+				if err != io.EOF {
+					t.Fatalf("frame %d: clean end of input reported as %v", frame, err)
+				}
+				return
+			case len(rest) < 4:
+				if !errors.Is(err, io.ErrUnexpectedEOF) {
+					t.Fatalf("frame %d: input ends %d bytes into a length prefix, got %v", frame, len(rest), err)
+				}
+				return
+			}
+			size := int(binary.BigEndian.Uint32(rest))
+			if size > limit {
+				if err == nil || errors.Is(err, io.EOF) || errors.Is(err, io.ErrUnexpectedEOF) {
+					t.Fatalf("frame %d: declared size %d exceeds the limit %d, got %v", frame, size, limit, err)
+				}
+				if reader.pos > off+4+64*1024 {
+					t.Fatalf("frame %d: %d bytes consumed past an oversize prefix", frame, reader.pos-off-4)
+				}
+				return
+			}
+			if len(rest) < 4+size {
+				if !errors.Is(err, io.ErrUnexpectedEOF) {
+					t.Fatalf("frame %d: input ends %d bytes into a %d-byte payload, got %v", frame, len(rest)-4, size, err)
+				}
+				return
+			}
+			want := &conformancev1.ClientCompatResponse{}
+			uerr := proto.Unmarshal(rest[4:4+size], want)
+			if (uerr == nil) != (err == nil) {
+				t.Fatalf("frame %d: payload unmarshal error %v, reader returned %v", frame, uerr, err)
+			}
+			if err != nil {
+				return // a rejected payload ends the conversation
+			}
+			if !proto.Equal(want, msg) {
+				t.Fatalf("frame %d: message differs from the payload bytes", frame)
+			}
+			off += 4 + size
+		}
+	})
+}
